@@ -50,7 +50,7 @@ pub fn main() {
     simrt::install_panic_hook();
     let args: Vec<String> = std::env::args().collect();
     match args.get(1).map(|s| s.as_str()) {
-        Some("check") => {
+        Some("check") | Some("check-inner") => {
             let Some(prop) = args.get(2) else { usage() };
             let mut tier = match std::env::var("VERIF_TIER").ok().as_deref() {
                 Some("thorough") => batch::Tier::Thorough,
@@ -72,7 +72,15 @@ pub fn main() {
                 eprintln!("plsim: no check for property {}", prop);
                 std::process::exit(2);
             };
+            if args[1] == "check" && std::env::var("PLSIM_NO_SUPERVISOR").is_err() {
+                std::process::exit(batch::supervise(prop, tier));
+            }
             std::process::exit(batch::run_check(&spec, tier));
+        }
+        Some("exec-one") => {
+            let (Some(prop), Some(file)) = (args.get(2), args.get(3)) else { usage() };
+            let Some(spec) = checks::check_spec(prop) else { std::process::exit(2) };
+            std::process::exit(batch::exec_one(&spec, file));
         }
         Some("replay") => {
             let (Some(prop), Some(file)) = (args.get(2), args.get(3)) else { usage() };
